@@ -273,7 +273,9 @@ func (cs *caseState) consume(s *sstate) {
 			}
 		} else {
 			if it.Keys == nil {
-				it.Keys = []uint32{}
+				// an empty frame was forwarded: recorded as item (0, 0, []) — the model
+				// never produces it, so it shows up as a correspondence mismatch
+				it = item{W: 0, Seq: 0, Keys: []uint32{}}
 			}
 			s.items = append(s.items, it)
 		}
